@@ -710,3 +710,70 @@ func TestC04_CCMRandom(t *testing.T) {
 			return checkAEAD(c, r)
 		})
 }
+
+// ---------------------------------------------------------------- lengths where a counter or length field grows a byte
+
+type sizeFam struct{ kind, nonce, tag int }
+
+// TestC04_LengthBoundaries: plaintext lengths at 256 blocks, 2^16 and 2^17
+// bytes (thorough: 2^20, i.e. 65536 blocks) and AAD lengths at 2^12 and 2^16,
+// where the CTR/GCM block counter, the CCM l(m) field, the GHASH length block
+// and the CCM l(a) encoding gain a byte; in place and disjoint. The main
+// families get the full plaintext x AAD product, every other (kind, nonce,
+// tag) family every plaintext length with the AAD lengths in rotation.
+func TestC04_LengthBoundaries(t *testing.T) {
+	pts := []int{4095, 4096, 4097, 65535, 65536, 65537, 65552, 131073}
+	aads := []int{0, 13, 4096, 65535, 65536, 65537}
+	main := []sizeFam{{kGCM, 12, 16}, {kCCM, 12, 16}}
+	others := []sizeFam{
+		{kGCM, 12, 12}, {kGCM, 12, 13}, {kGCM, 12, 15}, {kGCM, 1, 16}, {kGCM, 16, 16}, {kGCM, 64, 16},
+		{kGCMWrapped, 12, 16}, {kGCMWrapped, 12, 14}, {kGCMWrapped, 17, 16},
+		{kCCM, 13, 8}, {kCCM, 7, 4}, {kCCM, 11, 10}, {kCCMWrapped, 12, 16}, {kCCMWrapped, 13, 6},
+	}
+	h.Sweep(t, h.P{Name: "length-boundaries", Journal: journalAll}, func(emit func(aeadCase)) {
+		i := 0
+		one := func(f sizeFam, pt, aad int, inPlace bool) {
+			if !isGCM(f.kind) {
+				if L := 15 - f.nonce; L < 8 && uint64(pt)>>(8*uint(L)) != 0 {
+					return // the l(m) field of this nonce size cannot express the length
+				}
+			}
+			c := aeadCase{Kind: f.kind, NonceLen: f.nonce, TagLen: f.tag, PtLen: pt, AadLen: aad, Seed: gen.Mix(h.Seed, uint64(i), 6)}
+			rotateLayout(&c, i)
+			if inPlace {
+				c.SealLay, c.OpenLay = layInPlace, layInPlace
+			} else {
+				c.SealLay, c.OpenLay = []int{layPrefix, layNil}[i%2], []int{layNil, layPrefix}[i%2]
+			}
+			i++
+			emit(c)
+		}
+		sweep := func(pts, aads []int) {
+			for _, f := range main {
+				for _, pt := range pts {
+					for _, aad := range aads {
+						one(f, pt, aad, false)
+						one(f, pt, aad, true)
+					}
+				}
+			}
+			k := 0
+			for _, f := range others {
+				for _, pt := range pts {
+					one(f, pt, aads[k%len(aads)], k%2 == 0)
+					one(f, pt, aads[(k+1+k/len(aads))%len(aads)], k%2 == 1)
+					k++
+				}
+			}
+		}
+		sweep(pts, aads)
+		if h.Thorough() {
+			sweep([]int{1<<20 - 1, 1 << 20, 1<<20 + 1, 1<<20 + 16}, []int{0, 13, 65536})
+			sweep([]int{0, 17}, []int{1<<20 - 1, 1 << 20, 1<<20 + 1})
+		}
+	}, func(c aeadCase, r *h.Rec) error {
+		r.Label("boundary-pt=%d", c.PtLen)
+		r.Label("boundary-aad=%d", c.AadLen)
+		return checkAEAD(c, r)
+	})
+}
